@@ -35,7 +35,7 @@ RULE = ('checksum: sizes k*cs-1, k*cs, k*cs+1 (k=0..3) x chunk sizes {1,2,7,64,4
         'depth x pre-existing files x suffix/prefix x repeated calls; ensure_tree/delete_if_exists/seek: every '
         'errno of errno.errorcode x every directory/path state. non-trivial = non-empty content or an injected '
         'fault or a directory-tree state; distinct by the full parameter tuple')
-REQUIRED_CLAUSES = [
+REQUIRED_CLAUSES = ['tempfile-first-proposed-name-taken', 
     'under-warnings-as-errors', 'documented-keyword-call', 'ensure-directory-behind-symlink', 'falsy-remove-callable-is-used', 'no-descriptor-left-open', 'checksum-reentrant-at-yield', 'checksum-equals-whole-digest', 'errno-decides-not-exception-class', 'tempfile-dirs-removed-between-calls',
     'last-bytes-tail-and-count', 'last-bytes-n0', 'last-bytes-n-exceeds-size',
     'seek-EINVAL-fallback', 'seek-other-errno',
